@@ -241,8 +241,12 @@ def _run_enum(prop, part, tier, seed, shard, nshards, res):
 
 
 def _run_hyp(prop, part, tier, seed, shard, nshards, res):
+    import warnings
+
     import hypothesis
     from hypothesis import HealthCheck, Phase, given, settings
+    from hypothesis.errors import HypothesisWarning
+    warnings.simplefilter("ignore", HypothesisWarning)
 
     n = part.examples[tier]
     try:  # Hypothesis' shrinker has a hard 5-minute cap; bound it lower so a failing check reports promptly
